@@ -771,6 +771,18 @@ class LSym:
                 return self.select(c, Poly.const((1 << w) - 1), r)
             r = pa - pb; c = Cond("cmp", "lt", r, ZERO)
             return self.select(c, ZERO, r)
+        m = re.match(r'llvm\.s(add|sub)\.sat\.i(\d+)', name)
+        if m:
+            w = int(m.group(2)); pa, pb = self.signed(self.P(a[0]), w), self.signed(self.P(a[1]), w)
+            r = pa + pb if m.group(1) == "add" else pa - pb
+            hi = Cond("cmp", "ge", r, Poly.const(1 << (w - 1))); lo = Cond("cmp", "lt", r, Poly.const(-(1 << (w - 1))))
+            eh, el = self.eval_cond(hi), self.eval_cond(lo)
+            if eh is True: return Poly.const((1 << (w - 1)) - 1)
+            if el is True: return Poly.const(1 << (w - 1))
+            v = self.wrapv(r, w)
+            if eh is not False: v = self.select(hi, Poly.const((1 << (w - 1)) - 1), v)
+            if el is not False: v = self.select(lo, Poly.const(1 << (w - 1)), v)
+            return v
         m = re.match(r'llvm\.(umin|umax)\.i(\d+)', name)
         if m:
             pa, pb = self.P(a[0]), self.P(a[1])
